@@ -19,7 +19,7 @@ func init() {
 		Explanation: "Structure of the complexity gate: (limit-gate) in ComplexityLimit.MutateOperationContext the edge on which complexity.Calculate's result exceeds Func's result only reaches non-nil error returns and the " +
 			"other edge only nil returns (with C03/fail-closed: over-limit ⇒ no dispatch); (saturating-only) in package complexity integer arithmetic on complexities happens only inside safeAdd, whose raw sum is " +
 			"returned only on the no-wrap edge and only for non-negative operands; selectionSetComplexity's type switch covers every ast.Selection implementation; fieldComplexity accepts a custom value only when " +
-			"ok && custom >= child; (switch-complete) every materialised executor's Complexity switch has a case for each Type.field of its schema with a complexity root and returns (0,false) when argument coercion fails.",
+			"ok && custom >= child; (gate-sees-coerced-variables) in CreateOperationContext the operation-context mutators (the complexity gate is one) run only after opCtx.Variables was assigned the result of validator.VariableValues, and ComplexityLimit hands those variables to Calculate; (switch-complete) every materialised executor's Complexity switch has a case for each Type.field of its schema with a complexity root and returns (0,false) when argument coercion fails.",
 		NotDecided:  "safeAdd's arithmetic for all ints (value-level), monotonicity, interface max semantics beyond the comparison structure",
 		Assumptions: []string{"the materialised configuration set stands for 'all schemas' only as far as it goes (see coverage.materialised)"},
 	})
@@ -123,6 +123,8 @@ func runC14(c *Ctx) {
 			c.R.Check(ok, "ComplexityLimit/operation", c.ipos(call), "complexity is computed for "+why, "complexity is computed for an operation other than the one that will run: "+why)
 		}
 	}
+
+	c14GateSeesCoercedVariables(c)
 
 	// ---- saturating-only ------------------------------------------------------------------
 	c.R.Rule("saturating-only", "package complexity: integer +,-,*,<< on int values only inside the saturating adder; the adder returns its raw sum only on the no-wrap edge with both operands tested non-negative; the selection type switch covers every ast.Selection implementation; a custom complexity is used only on the `ok && custom >= child` edge; every selection kind reaches the adder on every path of its case (only introspection __Schema fields may be skipped)", 7)
@@ -583,6 +585,77 @@ func (c *Ctx) everySelectionCounted(fn *ssa.Function) {
 			}
 			walk(caseBlk, nil)
 			c.R.Check(bad == "", "selectionSetComplexity/counts:"+kind, c.ipos(ta), "every path of the case reaches safeAdd", bad)
+		}
+	}
+}
+
+
+// c14GateSeesCoercedVariables: the complexity gate is an OperationContextMutator; it evaluates argument values (custom complexity
+// functions receive them) from OperationContext.Variables.  Those must be the coerced variables — with operation-level defaults
+// filled in — that execution will use, otherwise an argument bound to an omitted variable with a large default is costed as if
+// absent and an over-limit operation passes the gate.  Checked in Executor.CreateOperationContext: every call of
+// MutateOperationContext is dominated by the store of validator.VariableValues' result into opCtx.Variables and no other store
+// to that field lies between that store and the call; Calculate receives exactly opCtx.Variables.
+func c14GateSeesCoercedVariables(c *Ctx) {
+	c.R.Rule("gate-sees-coerced-variables", "in Executor.CreateOperationContext every MutateOperationContext call (the complexity gate is one) is dominated by `opCtx.Variables = validator.VariableValues(...)` with no later store to that field before the call; ComplexityLimit passes the operation context's Variables to complexity.Calculate", 2)
+	fn := c.fn(pkgExecutor, "*Executor.CreateOperationContext")
+	if fn == nil {
+		return
+	}
+	var coerced []*ssa.Store
+	var others []*ssa.Store
+	for _, b := range fn.Blocks {
+		for _, in := range b.Instrs {
+			st, ok := in.(*ssa.Store)
+			if !ok {
+				continue
+			}
+			fa, ok := st.Addr.(*ssa.FieldAddr)
+			if !ok || fieldNameOf(fa) != "Variables" || !an.NamedIs(fa.X.Type().Underlying().(*types.Pointer).Elem(), pkgGraphql, "OperationContext") {
+				continue
+			}
+			if cc := an.AllExtractOf(st.Val, 0); cc != nil && an.CalleeOf(cc).FullName() == pkgValidator+".VariableValues" {
+				coerced = append(coerced, st)
+			} else {
+				others = append(others, st)
+			}
+		}
+	}
+	n := 0
+	for _, call := range an.CallsIn(fn, func(_ ssa.CallInstruction, ci an.CalleeInfo) bool {
+		return ci.FullName() == "("+pkgGraphql+".OperationContextMutator).MutateOperationContext"
+	}) {
+		n++
+		var dom *ssa.Store
+		for _, st := range coerced {
+			if an.Before(st, call) {
+				dom = st
+			}
+		}
+		bad := ""
+		if dom == nil {
+			bad = "the operation-context mutators (complexity limit among them) run before the variables were coerced: arguments bound to omitted variables with defaults are costed as absent, and an over-limit operation passes the gate"
+		} else {
+			for _, st := range others {
+				if an.CanReach(dom, st) && an.CanReach(st, call) {
+					bad = "opCtx.Variables is overwritten at " + c.ipos(st) + " between coercion and the mutators"
+				}
+			}
+		}
+		c.R.Check(bad == "", "CreateOperationContext/mutators-after-coercion", c.ipos(call), "dominated by opCtx.Variables = VariableValues(...)", bad)
+	}
+	if n == 0 {
+		c.R.Fail("unresolved anchor: CreateOperationContext does not call MutateOperationContext")
+	}
+	if lim := c.fn(pkgExtension, "ComplexityLimit.MutateOperationContext"); lim != nil {
+		for _, call := range an.CallsIn(lim, func(_ ssa.CallInstruction, ci an.CalleeInfo) bool { return ci.FullName() == pkgComplex+".Calculate" }) {
+			args := call.Common().Args
+			vars := args[len(args)-1]
+			ok := false
+			if fa, isFA := loadAddr(vars).(*ssa.FieldAddr); isFA && fieldNameOf(fa) == "Variables" && an.SameVar(fa.X, lim.Params[len(lim.Params)-1]) {
+				ok = true
+			}
+			c.R.Check(ok, "ComplexityLimit/variables", c.ipos(call), "Calculate receives opCtx.Variables", "complexity is computed with variables other than the operation context's coerced variables")
 		}
 	}
 }
